@@ -417,6 +417,7 @@ class Generated:
         self.repo_fns = {}
         self.fatal = None       # first structural lost anchor (the unit is undecided)
         self.lost = []          # annotations whose anchor was lost (id, dependent property tags)
+        self.shapes = {}        # rel -> {fn@k: dict(unannotated_loops, unannotated_closures)}
         self.clock_uses = []    # syntactic side condition of C07: uses of a clock reading outside the deadline test
 
     def fn_of(self, o):
@@ -544,6 +545,19 @@ def build_unit(unit):
             for (a, b, newtext, is_ann) in res_edits:
                 edits.append((a, b, newtext, is_ann, ann))
             g.anns.append(ann)
+        # shape of every function: loops that carry no loop annotation and closures that carry no R12 header.  A function
+        # with MORE of either than on the unchanged tree (vf/shapes.json) cannot be decided by the existing annotations: a
+        # failed obligation there is a tool limit, not a verdict (check.py makes it undecided).
+        for f in s.functions():
+            if f.get('open') is None or f.get('close') is None:
+                continue
+            un = 0
+            for l in s.loops(f['open'] + 1, f['close']):
+                if not any(is_ann and l['kw'] <= a <= l['open'] for (a, b, nt, is_ann, an) in edits):
+                    un += 1
+            ncl = len(list(s.find_code(r'(?:[(,=]|\bmove)\s*\|[^|\n]*\|', f['open'] + 1, f['close'])))
+            acl = len([1 for (a, b, nt, is_ann, an) in edits if an.pos.startswith('closure') and is_ann and f['open'] <= a <= f['close']])
+            g.shapes.setdefault(rel, {})[f['name'] + "@" + str(len([x for x in g.shapes.get(rel, {}) if x.split("@")[0] == f['name']]) + 1)] = dict(unannotated_loops=un, unannotated_closures=max(0, ncl - acl))
         edits.sort(key=lambda e: (e[0], e[1]))
         for e1, e2 in zip(edits, edits[1:]):
             if e2[0] < e1[1]:
